@@ -517,6 +517,11 @@ def gen_cfg(r, max_methods):
             # registered under another name than the Python function's: dispatch must use the REGISTERED signature
             via = "add-override"
         methods.append({"name": f"m{k}", "args": list(args), "ret": ret, "mc": mc, "via": via})
+    if len(methods) >= 2 and r.random() < 0.3:
+        # ARC-4 overloads: two handlers of ONE name with different argument lists (different signatures, different selectors)
+        i, j = r.sample(range(len(methods)), 2)
+        if methods[i]["args"] != methods[j]["args"]:
+            methods[j]["name"] = methods[i]["name"]
     bare = {}
     if r.random() < 0.75:
         for oc in (0, 1, 2, 4, 5):
